@@ -31,7 +31,7 @@ from ..cfg import explore, canon_fact
 from ..rules import call_sites, node_calls, event_facts, check_settles, settle_sites, fresh_cfg
 from ..mutate import mutate, remove_stmts, replace_expr, replace_stmt, parse_stmt, parse_expr
 from ..model import AnalysisError
-from ..x_guardflow import ClassEffects, guard_facts, has, prune_exceptions, unbound_uses, settles_guarded, edge_facts, as_aug
+from ..x_guardflow import ClassEffects, guard_facts, has, prune_exceptions, unbound_uses, settles_guarded, edge_facts, as_aug, expand_expr
 
 TECHNIQUE = "SETTLE lint + ownership dominance on the CFG + raise-model exception escape + definite assignment"
 EXPLANATION = (
@@ -335,6 +335,63 @@ def connector(ck):
     # ---- partition: remaining == number of queued addresses
     sp = ck.func(TC, CN + ".split")
     loops = [x for x in q.walk_body(sp.node) if isinstance(x, ast.For)]
+    if not loops and _split_by_comprehensions(ck, sp, init):
+        return_after_split = True
+    else:
+        return_after_split = False
+    if not return_after_split:
+        _split_by_loop(ck, sp, init, loops)
+    _after_split(ck, oct_, cs, methods)
+
+
+def _split_by_comprehensions(ck, sp, init) -> bool:
+    """split() written as two filtered comprehensions over addrinfo: each entry must satisfy exactly one filter"""
+    rets = [x for x in q.walk_body(sp.node) if isinstance(x, ast.Return) and isinstance(x.value, ast.Tuple) and len(x.value.elts) == 2]
+    if len(rets) != 1:
+        return False
+    lists = [q.dotted(e) for e in rets[0].value.elts]
+    sparam = [p_ for p_ in sp.params() if p_ not in ("self", "cls")]
+    comps = []
+    for nm in lists:
+        sts = [st for st in q.stores_to(sp.node, nm)] if nm else []
+        if len(sts) != 1 or not isinstance(getattr(sts[0], "value", None), ast.ListComp):
+            return False
+        lc = sts[0].value
+        if len(lc.generators) != 1 or q.dotted(lc.generators[0].iter) != sparam[0] or len(lc.generators[0].ifs) != 1:
+            return False
+        comps.append((sts[0], lc))
+    # the family variable of the element and the primary family
+    bad = []
+    for fam in (1, 2):
+        for prim in (1, 2):
+            hits = 0
+            for st, lc in comps:
+                tgt = lc.generators[0].target
+                fv = tgt.elts[0].id if isinstance(tgt, ast.Tuple) and isinstance(tgt.elts[0], ast.Name) else None
+                if fv is None:
+                    raise AnalysisError("split(): comprehension target is not (family, address)")
+                cond = expand_expr(ck.repo, sp, lc.generators[0].ifs[0], locals_too=False)
+                others = {x.id for x in ast.walk(cond) if isinstance(x, ast.Name)} - {fv}
+                env = {fv: fam}
+                env.update({o: prim for o in others})
+                try:
+                    hits += bool(q.fold(cond, env))
+                except q.NotFoldable as ex:
+                    raise AnalysisError("split(): cannot evaluate the family filter: %s" % ex)
+            if hits != 1:
+                bad.append("family=%d primary=%d -> %d queues" % (fam, prim, hits))
+    ck.ob("C10.remaining-once", sp, comps[0][0], not bad, "split() puts every address into exactly one of the two queues (two complementary filters over addrinfo)%s" % ((": " + "; ".join(bad)) if bad else ""), construct="split appends per address")
+    for st, lc in comps:
+        elt_names = {x.id for x in ast.walk(lc.elt) if isinstance(x, ast.Name)}
+        tnames = {x.id for x in ast.walk(lc.generators[0].target) if isinstance(x, ast.Name)}
+        ck.ob("C10.remaining-once", sp, st, tnames <= elt_names, "the queued entry is the (family, address) pair itself")
+    unp = [st for st in q.stores_to(init.node, "self.primary_addrs")]
+    ok = len(unp) == 1 and isinstance(unp[0], ast.Assign) and isinstance(unp[0].targets[0], ast.Tuple) and [q.dotted(e) for e in unp[0].targets[0].elts] == ["self.primary_addrs", "self.secondary_addrs"] and q.is_call(unp[0].value, "self.split")
+    ck.ob("C10.remaining-once", init, unp[0] if unp else init.node, ok, "the two queues are the two halves returned by split(addrinfo)")
+    return True
+
+
+def _split_by_loop(ck, sp, init, loops):
     ck.need(len(loops) == 1, "split() does not have a single loop over addrinfo")
     lp = loops[0]
     rets = [x for x in q.walk_body(sp.node) if isinstance(x, ast.Return) and isinstance(x.value, ast.Tuple) and len(x.value.elts) == 2]
@@ -395,6 +452,8 @@ def connector(ck):
     ok = len(unp) == 1 and isinstance(unp[0], ast.Assign) and isinstance(unp[0].targets[0], ast.Tuple) and [q.dotted(e) for e in unp[0].targets[0].elts] == ["self.primary_addrs", "self.secondary_addrs"] and q.is_call(unp[0].value, "self.split")
     ck.ob("C10.remaining-once", init, unp[0] if unp else init.node, ok, "the two queues are the two halves returned by split(addrinfo)")
 
+
+def _after_split(ck, oct_, cs, methods):
     # ---- overall timeout
     tsets = oct_.cfg.stmt_nodes(lambda m: _settles_future(m))
     ck.floor("C10.losers-closed", len(tsets), 1, "settles in on_connect_timeout")
@@ -403,7 +462,15 @@ def connector(ck):
     for m in tsets:
         ck.ob("C10.losers-closed", oct_, m.ast, m.id not in bad, "after the connect timeout fails the future every in-flight stream is closed")
         c = [c for c in q.calls(m.ast) if q.call_attr(c) == "set_exception"]
-        ck.ob("C10.losers-closed", oct_, m.ast, bool(c) and c[0].args and isinstance(c[0].args[0], ast.Call) and (q.dotted(c[0].args[0].func) or "").endswith("TimeoutError"), "the connect timeout completes the future with TimeoutError")
+        a0 = c[0].args[0] if c and c[0].args else None
+        if isinstance(a0, ast.Name):
+            from ..x_guardflow import reaching_value
+
+            rv_ = reaching_value(oct_, a0.id, m)
+            if rv_ is None:
+                raise AnalysisError("cannot tell what %s holds where the connect timeout fails the future" % a0.id)
+            a0 = rv_
+        ck.ob("C10.losers-closed", oct_, m.ast, isinstance(a0, ast.Call) and (q.dotted(a0.func) or "").endswith("TimeoutError"), "the connect timeout completes the future with TimeoutError")
     # close_streams really closes every member
     loops = [x for x in q.walk_body(cs.node) if isinstance(x, ast.For) and q.dotted(x.iter) in ("self.streams",) or (isinstance(x, ast.For) and isinstance(x.iter, ast.Call) and q.dotted(x.iter.func) in ("list", "tuple", "set") and x.iter.args and q.dotted(x.iter.args[0]) == "self.streams")]
     ok = False
